@@ -166,6 +166,16 @@ pub async fn run_case(pki: &Pki, c: &Case) -> Outcome {
     let who = ["a certificate from CA A", "a certificate from CA B", "a self-signed certificate", "no certificate"][(c.client % 4) as usize];
     let srv = ["presenting a CA-A certificate and verifying clients against CA A", "presenting a CA-B certificate and verifying clients against CA A", "presenting a CA-B certificate and verifying clients against CA B"][(c.server % 3) as usize];
     let trusts = ["CA A", "CA B"][(c.client_ca % 2) as usize];
+    if !expect_ok && c.server % 3 == 0 && c.client_ca % 2 == 0 {
+        // the refused attempt above was made against the fully trusted server: a client
+        // holding the generated set must still be served by that same server instance
+        let t2 = format!("/{ns}/after-{}", fresh_id());
+        match try_register_lib(addr, &a.client_ca(), &a.client_cert(), &a.client_key(), c.kind, &t2).await {
+            Ok(true) => {}
+            Ok(false) => return Outcome::fail("trusted-pair-refused-after-refused-peer", format!("after a client with {} was turned away, a client with the generated certificate set can no longer register on the same server", ["a certificate from CA A", "a certificate from CA B", "a self-signed certificate", "no certificate"][(c.client % 4) as usize])),
+            Err(e) => return Outcome::Inconclusive(e),
+        }
+    }
     if registered && !expect_ok {
         return Outcome::fail(
             if !client_cert_ok { "untrusted-client-registered" } else { "client-talked-to-untrusted-server" },
@@ -218,7 +228,7 @@ pub async fn run_case(pki: &Pki, c: &Case) -> Outcome {
 }
 
 pub fn run(ctx: &mut Ctx) {
-    ctx.rule = "the full product client certificate {CA A, CA B, self-signed, none} x CA the client trusts {A, B} x server identity {cert A / verifies clients against A, cert B / verifies against A (isolates the client's check of the server), cert B / verifies against B} x stream kind (4), with freshly generated keys every run (CA A: the generator's default set, regenerated eight times over the same directory; CA B: a --no-expiry set); the CA-B identities are presented as PEM full-chain files (leaf + issuer), the CA-A ones as the generator's DER files (two independent runs of the bundled generator give the two CAs, rcgen the self-signed certificate, a raw quinn client the certificate-less peer); quick enumerates all 24 identity triples with one seed-chosen stream kind each (all four for the fully trusted triple), thorough all 96 cells twice; oracle: a registration is answered Ok exactly when the client's certificate chains to the CA the server verifies against AND the server's certificate chains to the CA the client trusts (three of the 24 triples), every other pairing is never answered Ok and nothing it publishes reaches a trusted subscriber; non-trivial = any pairing other than trusted x trusted".into();
+    ctx.rule = "the full product client certificate {CA A, CA B, self-signed, none} x CA the client trusts {A, B} x server identity {cert A / verifies clients against A, cert B / verifies against A (isolates the client's check of the server), cert B / verifies against B} x stream kind (4), with freshly generated keys every run (CA A: the generator's default set, regenerated eight times over the same directory; CA B: a --no-expiry set); the CA-B identities are presented as PEM full-chain files (leaf + issuer), the CA-A ones as the generator's DER files (two independent runs of the bundled generator give the two CAs, rcgen the self-signed certificate, a raw quinn client the certificate-less peer); quick enumerates all 24 identity triples with one seed-chosen stream kind each (all four for the fully trusted triple), thorough all 96 cells twice; after every refused attempt against the fully trusted server a client with the generated set must still be served by the same server instance; oracle: a registration is answered Ok exactly when the client's certificate chains to the CA the server verifies against AND the server's certificate chains to the CA the client trusts (three of the 24 triples), every other pairing is never answered Ok and nothing it publishes reaches a trusted subscriber; non-trivial = any pairing other than trusted x trusted".into();
     ctx.assumptions.push("configuration enumeration: expiry, revocation and key-usage variations are outside the property".into());
     let env = match Env::new() {
         Ok(e) => e,
